@@ -94,6 +94,10 @@ class Var(Aggregation):
         self.ddof = ddof
 
     def _compute_result(self, x, x2, n):
+        if isinstance(n, Number) and n == 0:
+            # a single column that has not seen a value yet: like Mean, and like
+            # the frame case, the result is NaN (0 / 0 on Python ints would raise)
+            return np.nan
         result = (x2 / n) - (x / n) ** 2
         if self.ddof != 0:
             result = result * n / (n - self.ddof)
